@@ -53,6 +53,11 @@ CLAIMS = {
          "former role-holder is re-validated before the new one acts, also when the re-execution is caused by a failing dependency check: no build aborts and outputs equal a "
          "from-scratch evaluation. The three orders in which pie does abort although the current state contains no violation are recorded findings (known_findings.json: C20-KF1..3), "
          "each reported as KNOWN-FINDING only after it reproduces natively with the listed panic message. Bottom-up builds, other programs and longer histories are outside the claim.", "§4 C20"),
+ "C19": ("Mechanism level, top-down only: the state an aborted build leaves behind is CONSTRUCTED with the crate's own store API (unwinding runs no pie code: the tasks that were executing "
+         "are reset, carry the dependencies recorded so far and a reserved require edge to the task they were waiting for) for every abort point of a two-task program "
+         "(first build or incremental build; in the outer task before/after its read, in the nested task before/after its read), with the resources afterwards changed or not; "
+         "the following real top-down sessions must not hit an internal-invariant panic, must execute the aborted tasks as new, and must return from-scratch results, "
+         "also when repeated. Aborts caused by diagnosed violations, panics inside checkers, bottom-up builds and deeper nesting are outside the claim.", "§4 C19"),
  "C14": ("Partly, unit level: for the map resource, stamp/stamp_reader/stamp_writer agree with the stored value or absence and MapEqualsChecker is "
          "consistent exactly when the current value or absence equals the stamped one, after writes through a writer and directly through the "
          "resource state; per-resource-type state slots do not alias (also with a shared state type) and a non-matching state type is replaced for that resource type only. "
@@ -61,7 +66,6 @@ CLAIMS = {
 NA = {
  "C03": "needs a whole bottom-up build; a task object taken out of the store (trait object inside an enum variant) is not constant-folded by Kani/CBMC, so executing it bottom-up explores every task program and merges (measured, DESIGN §2, §6)",
  "C13": "file checkers are thin layers over filesystem syscalls, SystemTime and SHA-256 over file content: not encodable (FFI) / textbook weak target (DESIGN §6)",
- "C19": "needs execution to continue after a panic; Kani models panic as abort and has no catch_unwind (DESIGN §6)",
 }
 NOT_BUILT = "check not built yet in this round (see DESIGN.md §4 for the plan)"
 ALL = ["C%02d" % i for i in range(1, 21)]
